@@ -339,6 +339,13 @@ def run(ck, c15, Event, uno, have_driver):
             d2["impl_output"] = o
             return m, d2
         R.call(case, route, fast=True, model=with_model, replay=lambda case=case, route=route: big_replay(case, route), shrink=shrink)
+    try:
+        from . import c15_edge          # round 5: containers, data dict types, numeric extremes, faults
+        c15_edge.run(R)
+    except Exception as ex:  # noqa: BLE001    a tree on which the edge streams cannot even run: the tie is not established
+        import traceback
+        ck.disagreement("edge streams", f"harness/c15_edge.py could not complete against this tree: {type(ex).__name__}: {str(ex)[:200]}",
+                        {"traceback": traceback.format_exc()[-1500:]})
     R.compare_with_model()
     TX.prefer_session_failure(ck)
     ck.coverage["round3"] = {
